@@ -25,7 +25,7 @@ for f in sorted(glob.glob(os.path.join(V, 'seeded', '*', 'meta.json'))):
     m = json.load(open(f))
     sid = m['seed_id']
     if m.get('benign'):
-        rows.append('| %s | — (benign rewrite) | %s | none (as it must be) | — |' % (sid, m['what'][:110].replace('|', '/')))
+        rows.append('| %s | — (benign rewrite) | %s | none (as it must be) | — |' % (sid, ' '.join(m['what'].replace('#', '').replace('*', '').replace('`', '').split())[:140].replace('|', '/')))
         continue
     ch = m.get('checks', {})
     tgt = ch.get(m['property'])
